@@ -106,6 +106,10 @@ def handle : List String → String
       let out := match sha2Rule f (decOptNat len) with | .hex256 => "hex256" | .bin256 => "bin256" | .passedOn => "passedOn"
       s!"impl={out}"
     | none => "bad-op"
+  | ["trim", s, chars, textCast] =>
+    let cs := decOptStr chars
+    let impl := trimImplG (decBool textCast) (decStr s) cs
+    s!"spec=T{encStr (trimSpec (decStr s) cs)}\timpl=T{encStr impl}\tfinding={if cs.isSome && trimSpec (decStr s) cs != impl then "C10/trim-chars" else "-"}"
   | ["trim", s, chars] =>
     let cs := decOptStr chars
     s!"spec=T{encStr (trimSpec (decStr s) cs)}\timpl=T{encStr (trimImpl (decStr s) cs)}\tfinding={if cs.isSome && trimSpec (decStr s) cs != trimImpl (decStr s) cs then "C10/trim-chars" else "-"}"
